@@ -18,7 +18,7 @@ Proof. exact eval_partition. Qed.
 Theorem C02_exactly_once : forall W D, (forall x, NoDup (D x)) ->
   forall c, ufree c = true -> forall b rho,
   extends rho b -> (forall x, In x (cond_vars c) -> In (rho x) (D x)) ->
-  cnt (covt rho) (eval W D c b) = if sat W rho c then 1 else 0.
+  cnt (covt rho) (eval W D c b) = if sat W D rho c then 1 else 0.
 Proof. exact eval_exactly_once. Qed.
 
 (* in the negation-normal conjunctive / else-if fragment (or_ only between conditions over the same variables) every true
